@@ -128,6 +128,7 @@ def trace_random(rep, pid, quick, tables=("default", "wide", "tight")):
         inputs += [gens.alive_selfies(rng, rng.randint(5, maxlen)) for _ in range(n_inputs // 2)]
         if tab == "default":
             inputs += [gens.many_closed_rings(120), gens.alive_selfies(rng, 600 if quick else 2000)]
+            inputs += [gens.rings_beyond_99(rng) for _ in range(4 if quick else 40)]
             inputs += gens.uniform_strings(rng, DEC["ring"] + DEC["branch"] + DEC["bad"], 200 if quick else 2000, 30)
         recs = de.record_decoder(inputs, TABLES[tab])
         results, events = de.validate_decoder_trace("%s_%s" % (pid, tab), recs, TABLES[tab])
@@ -216,6 +217,7 @@ def trace_C01(rep, quick):
         if tab in ("default", "wide"):
             inputs += [gens.many_closed_rings(130), gens.many_open_rings(60),
                        gens.alive_selfies(rng, 700 if quick else 2000, p_ring=0.2)]
+            inputs += [gens.rings_beyond_99(rng) for _ in range(4 if quick else 40)]
         if tab == "wide":
             inputs += [gens.many_open_rings(105)]
         recs = de.record_decoder(inputs, TABLES[tab])
